@@ -301,7 +301,7 @@ def ack_offset(seq, initial):
 def honest_ack(tr, apdu):
     """the peer acknowledges only what it received: a segment this side has sent (the last one only after it was sent), or an older one"""
     off = ack_offset(apdu.apduSeq, tr.initialSequenceNumber)
-    return 1 <= apdu.apduWin <= WINDOW_BOUND and (off >= 128 or bool(tr.sentAllSegments) or tr.initialSequenceNumber + off + 1 < tr.segmentCount)
+    return 1 <= apdu.apduWin <= WINDOW_BOUND and (off >= 128 or tr.initialSequenceNumber + off + (0 if tr.sentAllSegments else 1) < tr.segmentCount)
 
 def sender_ack_ok(tr, apdu, old_state, old_initial, old_sent_all, old_retry, to_net, old_data, done_state):
     """effect of a segment-ack on the sending side"""
@@ -311,11 +311,16 @@ def sender_ack_ok(tr, apdu, old_state, old_initial, old_sent_all, old_retry, to_
     if not off < apdu.apduWin:                               # duplicate / stale ack: nothing is sent, nothing moves
         return (tr.state == old_state and tr.initialSequenceNumber == old_initial and len(to_net) == 0
                 and tr.sentAllSegments == old_sent_all and tr.segmentRetryCount == old_retry)
-    if old_sent_all:
-        return tr.state == done_state and len(to_net) == 0
+    if old_sent_all and old_initial + off == tr.segmentCount - 1:
+        return tr.state == done_state and len(to_net) == 0            # the ack of the very last segment ends the transfer
+    # an ack for anything earlier (also a negative ack inside the last window) moves on to the segment after it
     return (tr.state == old_state and tr.initialSequenceNumber == old_initial + off + 1 and tr.segmentRetryCount == 0
             and window_sent(tr, tr.initialSequenceNumber, to_net, old_data)
             and bool(tr.sentAllSegments) == (tr.initialSequenceNumber + tr.actualWindowSize >= tr.segmentCount))
+
+def receiver_timer_ok(tr):
+    """the side receiving segments waits four segment timeouts (the sender retransmits after one, so a retransmission always comes first)"""
+    return tr.isScheduled == True and tr.taskTime == due(tr.segmentTimeout * 4 / 1000.0)
 
 def is_segack(p, nak, srv, invoke, seq, win):
     return (p.apduType == 4 and p.apduNak == nak and p.apduSrv == srv and p.apduInvokeID == invoke and p.apduSeq == seq and p.apduWin == win)
@@ -376,10 +381,16 @@ for _st in (SEGMENTED_REQUEST, AWAIT_CONFIRMATION, SEGMENTED_CONFIRMATION):
                         "old(bytes(self.segmentAPDU.pduData)), trace('to_net'), 0, COMPLETED)")
             # the reassembled response is what reaches the application
             _ens.append("not terminal(self) or self.state == ABORTED or trace('to_app')[0][0] is self.segmentAPDU")
+            _ens.append("terminal(self) or receiver_timer_ok(self)")
+        if _st == SEGMENTED_CONFIRMATION and _kn == "SegmentAck":
+            # a late or duplicate ack of the request phase does not disturb the response being received
+            _ens.append("self.state == SEGMENTED_CONFIRMATION and len(trace('to_net')) == 0 and len(trace('to_app')) == 0")
         if _st == AWAIT_CONFIRMATION and _kn == "ComplexAck":
             # the receiving window is the one the server proposed, never more (C12); the first segment is acknowledged
             _ens.append("self.state != SEGMENTED_CONFIRMATION or (self.actualWindowSize == apdu.apduWin and self.segmentAPDU is apdu "
                         "and len(trace('to_net')) == 1 and is_segack(trace('to_net')[0][0], 0, 0, self.invokeID, 0, apdu.apduWin))")
+        if _kn == "ComplexAck" and _st != SEGMENTED_CONFIRMATION:
+            _ens.append("self.state != SEGMENTED_CONFIRMATION or receiver_timer_ok(self)")
         contract("bacpypes.appservice:ClientSSM.confirmation", name="bacpypes.appservice:ClientSSM.confirmation[%s, %s]" % (_STATE_NAMES[_st], _kn),
             params={"self": SSMObj(ClientSSM, states=(_st,), context=(Maybe(ComplexAck()) if _st == SEGMENTED_CONFIRMATION else None)), "apdu": _mk()},
             requires=_req, ensures=_ens,
@@ -483,10 +494,13 @@ def server_idle_ok(tr, apdu, to_net, to_app):
         return tr.state == AWAIT_RESPONSE and len(to_app) == 1 and to_app[0][0] is apdu and len(to_net) == 0
     if tr.segmentationSupported not in ('segmentedReceive', 'segmentedBoth'):
         return tr.state == ABORTED and len(to_app) == 0 and len(to_net) == 1 and to_net[0][0].apduType == 7
+    if apdu.apduSeq != 0:
+        # not a first segment: it belongs to a transaction that is gone -- refused, never taken for the start of a new request (C05)
+        return tr.state == ABORTED and len(to_app) == 0 and len(to_net) == 1 and to_net[0][0].apduType == 7 and to_net[0][0].apduSrv == True
     W = tr.actualWindowSize
     return (tr.state == SEGMENTED_REQUEST and len(to_app) == 0 and tr.segmentAPDU is apdu
             and 1 <= W <= 127 and W <= apdu.apduWin and W <= tr.ssmSAP.proposedWindowSize      # never more than the other side proposed
-            and tr.lastSequenceNumber == 0 and tr.initialSequenceNumber == 0
+            and tr.lastSequenceNumber == 0 and tr.initialSequenceNumber == 0 and receiver_timer_ok(tr)
             and len(to_net) == 1 and is_segack(to_net[0][0], 0, 1, tr.invokeID, 0, W))
 
 for _seg in SEG:
@@ -495,8 +509,7 @@ for _seg in SEG:
         params={"self": SSMObj(ServerSSM, states=(IDLE,), context=Const(None), full=True, live=True, device_info=DeviceInfoShape(npdu=False),
                                maxApduLengthAccepted=Const(1024), maxSegmentsAccepted=Const(2), segmentationSupported=Const(_seg), **_FRESH),
                 "apdu": ConfReq(apduWin=Int(1, 127), apduMaxResp=Int(_lo, _hi))},
-        requires=["self.isScheduled == False", "others_kept(self)",
-                  "not apdu.apduSeg or apdu.apduSeq == 0"],          # a transaction starts with the first segment
+        requires=["self.isScheduled == False", "others_kept(self)"],
         ensures=["inv_server(self)", "self.state != IDLE",        # a transaction never stays IDLE: it ends or has a timer
                  "server_app_ok(self, IDLE, trace('to_app'))", "frames_ok(self, trace_then('to_net'))",
                  "server_idle_ok(self, apdu, trace('to_net'), trace('to_app'))"],
@@ -509,8 +522,10 @@ _SERVER_IN = {
     (SEGMENTED_REQUEST, "SegmentAck"): lambda: SegAck(),
     (AWAIT_RESPONSE, "ConfirmedRequest"): lambda: ConfReq(),
     (AWAIT_RESPONSE, "Abort"): AbortP,
+    (AWAIT_RESPONSE, "SegmentAck"): lambda: SegAck(),
     (SEGMENTED_RESPONSE, "SegmentAck"): lambda: SegAck(apduWin=Int(0, 255)),
     (SEGMENTED_RESPONSE, "Abort"): AbortP,
+    (SEGMENTED_RESPONSE, "ConfirmedRequest"): lambda: ConfReq(),
 }
 
 for (_st, _kn), _mk in _SERVER_IN.items():
@@ -520,13 +535,15 @@ for (_st, _kn), _mk in _SERVER_IN.items():
         _ens.append("not apdu.apduSeg or receiver_ok(self, apdu, SEGMENTED_REQUEST, old(self.lastSequenceNumber), old(self.initialSequenceNumber), "
                     "old(bytes(self.segmentAPDU.pduData)), trace('to_net'), 1, AWAIT_RESPONSE)")
         _ens.append("self.state != AWAIT_RESPONSE or trace('to_app')[0][0] is self.segmentAPDU")       # the reassembled request is what reaches the application
+        _ens.append("self.state != SEGMENTED_REQUEST or receiver_timer_ok(self)")
     if (_st, _kn) == (SEGMENTED_RESPONSE, "SegmentAck"):
         _req.append("honest_ack(self, apdu)")
         _ens.append("sender_ack_ok(self, apdu, SEGMENTED_RESPONSE, old(self.initialSequenceNumber), old(self.sentAllSegments), old(self.segmentRetryCount), "
                     "trace('to_net'), old(bytes(self.segmentAPDU.pduData)), COMPLETED)")
-    if (_st, _kn) == (AWAIT_RESPONSE, "ConfirmedRequest"):
-        # a retransmitted request while the application is working: not handed up again, nothing changes
-        _ens.append("self.state == AWAIT_RESPONSE and len(trace('to_app')) == 0 and len(trace('to_net')) == 0")
+    if (_st, _kn) in ((AWAIT_RESPONSE, "ConfirmedRequest"), (AWAIT_RESPONSE, "SegmentAck"), (SEGMENTED_RESPONSE, "ConfirmedRequest")):
+        # a retransmitted request (or a stray segment ack) while the application is working / the response is going out:
+        # not handed up again, nothing changes, nothing escapes into the network layer
+        _ens.append("self.state == old(self.state) and len(trace('to_app')) == 0 and len(trace('to_net')) == 0")
     contract("bacpypes.appservice:ServerSSM.indication", name="bacpypes.appservice:ServerSSM.indication[%s, %s]" % (_STATE_NAMES[_st], _kn),
         params={"self": SSMObj(ServerSSM, states=(_st,), context=(Maybe(ConfReq()) if _st == SEGMENTED_REQUEST else None)), "apdu": _mk()},
         requires=_req, ensures=_ens, modifies=_SERVER_MOD, max_paths=40000)
